@@ -1478,6 +1478,23 @@ def concatenate(
     except BaseException:
         pass
 
+    # stack the attributes every mesh has one row per face or vertex of
+    attributes = {}
+    for name, counts in (
+        ("face_attributes", [len(m.faces) for m in is_mesh]),
+        ("vertex_attributes", [len(m.vertices) for m in is_mesh]),
+    ):
+        sources = [getattr(m, name, {}) for m in is_mesh]
+        attributes[name] = {}
+        for key in sources[0]:
+            try:
+                if all(key in s and len(s[key]) == c for s, c in zip(sources, counts)):
+                    attributes[name][key] = np.concatenate(
+                        [np.asanyarray(s[key]) for s in sources]
+                    )
+            except BaseException:
+                log.debug(f"failed to combine `{name}[{key}]`", exc_info=True)
+
     # create the mesh object
     result = trimesh_type(
         vertices=vertices,
@@ -1487,6 +1504,7 @@ def concatenate(
         visual=visual,
         metadata=metadata,
         process=False,
+        **attributes,
     )
 
     try:
@@ -1536,6 +1554,23 @@ def submesh(
     vertices = []
     normals = []
     visuals = []
+    # which faces and which vertices of the original each subset holds
+    face_index = []
+    vertex_index = []
+
+    def attributes(face_rows, vertex_rows):
+        # the rows of every attribute that has one row per face or vertex
+        return {
+            name: {
+                k: np.asanyarray(v)[rows]
+                for k, v in getattr(mesh, name, {}).items()
+                if np.shape(v)[:1] == (count,)
+            }
+            for name, count, rows in (
+                ("face_attributes", len(original_faces), face_rows),
+                ("vertex_attributes", len(original_vertices), vertex_rows),
+            )
+        }
 
     # for reindexing faces
     mask = np.arange(len(original_vertices))
@@ -1564,6 +1599,8 @@ def submesh(
         normals.append(mesh.face_normals[index])
         faces.append(mask[current])
         vertices.append(original_vertices[unique])
+        face_index.append(np.arange(len(original_faces))[index])
+        vertex_index.append(unique)
 
         try:
             visuals.append(mesh.visual.face_subset(index))
@@ -1593,6 +1630,7 @@ def submesh(
             visual=visual,
             metadata=deepcopy(mesh.metadata),
             process=False,
+            **attributes(np.concatenate(face_index), np.concatenate(vertex_index)),
         )
         appended._source = deepcopy(mesh.source)
 
@@ -1610,8 +1648,11 @@ def submesh(
             visual=c,
             metadata=deepcopy(mesh.metadata),
             process=False,
+            **attributes(fi, vi),
         )
-        for v, f, n, c in zip(vertices, faces, normals, visuals)
+        for v, f, n, c, fi, vi in zip(
+            vertices, faces, normals, visuals, face_index, vertex_index
+        )
     ]
 
     [setattr(r, "_source", deepcopy(mesh.source)) for r in result]
